@@ -239,6 +239,36 @@ def harness(ctx):
                 ctx.require(abs(float(res[0]) - freq) < 1e-12, "apply_threshold_prob:frequency:%s" % bin_type,
                             expected=freq, actual=float(res[0]))
 
+    # ---- site E: get_p on a Data object (stored CDF values at the three representatives) -------------
+    if form == "arraymixed" and k == 0 and evs:
+        ctx.flag("get_p")
+        data, finite_vals, cdf = _data_for(emb)
+        import verif.axis
+        for (t, u), iv in zip(evs, intervals):
+            if u is not None and not t <= u:
+                continue
+            for ti, ov in enumerate(finite_vals):
+                kind, res, site, _ = H.quiet_call(verif.metric.get_p, data, 0, verif.axis.Time(), ti, iv)
+                if kind != "ok":
+                    ctx.fail("get_p:" + (site or kind), bin_type=bin_type, t=t, u=u)
+                    break
+                obsP, pr = [np.asarray(np.ma.filled(np.ma.asarray(r, dtype=float), np.nan), dtype=float).reshape(-1) for r in res]
+                eo = ref_event(bin_type, ov, t, u)
+                if eo is None:
+                    ctx.require(len(obsP) == 1 and math.isnan(obsP[0]), "get_p:missing-obs-is-an-event", actual=obsP.tolist(), t=t, u=u)
+                    continue
+                if bin_type in ("below", "below="):
+                    ep = cdf[t][ti]
+                elif bin_type in ("above", "above="):
+                    ep = 1 - cdf[t][ti]
+                else:
+                    ep = cdf[u][ti] - cdf[t][ti]
+                if not (len(obsP) == 1 and obsP[0] == float(eo)):
+                    ctx.fail("get_p:observed-event:%s" % bin_type, expected=float(eo), actual=obsP.tolist(), obs=ov, t=t, u=u)
+                if not (len(pr) == 1 and abs(pr[0] - ep) < 1e-12):
+                    ctx.fail("get_p:probability:%s" % bin_type, expected=ep, actual=pr.tolist(), t=t, u=u)
+                sig.append((ti, float(eo)))
+
     # ---- relations ----------------------------------------------------------------------------
     inc = all(thresholds[i] < thresholds[i + 1] for i in range(len(thresholds) - 1))
     if bin_type == "within=" and inc and len(thresholds) >= 2 and all(w is not None for w in within_answers):
@@ -270,6 +300,40 @@ def harness(ctx):
     ctx.outcome("events=%d" % len(evs))
     ctx.nontrivial(len(evs) > 0)
 
+_DATA = {}
+
+
+def _data_for(emb):
+    """One-location, one-lead-time Data whose observation at time i is the i-th finite value class (+ one missing) and
+    which stores a CDF value for each of the three threshold representatives (distinct per time and threshold)."""
+    key = tuple(emb)
+    if key not in _DATA:
+        import verif.data
+        from mc import gen
+        vals = []
+        for c in VALUE_CLASSES:
+            c = c[1]
+            if c in ("-inf", "+inf"):
+                continue
+            if c == "nan":
+                vals.append(float("nan"))
+            elif isinstance(c, tuple):
+                t = emb[c[1]]
+                vals.append(t + c[2] * (abs(t) * 1e-7 + 1e-9))
+            else:
+                vals.append(emb[c])
+        T0 = 1330387200
+        ai = gen.AInput("A", [T0 + 86400 * i for i in range(len(vals))], [0.0], [(1, 50.0, 10.0, 5.0)])
+        ai.fields["obs"] = {(i, 0, 0): v for i, v in enumerate(vals)}
+        ai.fields["fcst"] = {(i, 0, 0): 1.0 for i, v in enumerate(vals)}
+        cdf = {}
+        for j, ti in enumerate((1, 3, 5)):
+            t = emb[ti]
+            cdf[t] = [0.125 + 0.25 * j + i / 256.0 for i in range(len(vals))]
+            ai.fields["p" + repr(float(t))] = {(i, 0, 0): cdf[t][i] for i in range(len(vals))}
+        _DATA[key] = (verif.data.Data([gen.mem_input(ai)]), vals, cdf)
+    return _DATA[key]
+
 
 def _class_of(xv, emb):
     if isinstance(xv, float) and math.isnan(xv):
@@ -297,7 +361,7 @@ def run(tier, only=None):
         "sites", st, bound="full product 3 embeddings x 8 bin types x 40 threshold lists x 16 value classes x 5 forms",
         rule="one execution per (embedding, bin type, threshold list, value class, form); non-trivial = at least one event "
              "is defined by the threshold list; distinct = distinct (case, answer-vector) observations",
-        required_flags=("partition", "complement"), wall=time.time() - t0))
+        required_flags=("partition", "complement", "get_p"), wall=time.time() - t0))
     return subs
 
 
